@@ -11,7 +11,7 @@
    (correspondence + oracle over generated and mutated corpus trees). *)
 From Coq Require Import String List ZArith.
 From Prov Require Import Str StrProofs Sexp Tables Nsm NsmProofs Values Record World WorldProofs Jtree Json JsonProofs JsonSpec JsonRecProofs JsonContProofs
-  Xml XmlProofs XmlLabel XmlLabelProofs XmlRec XmlRead XmlRecProofs XmlReadProofs IdemProofs GoodProofs JsonValueProofs ShapeProofs.
+  Xml XmlProofs XmlLabel XmlLabelProofs XmlRec XmlRead XmlRecProofs XmlReadProofs IdemProofs GoodProofs JsonValueProofs ShapeProofs XmlReadDoc XmlReadDocProofs.
 Import ListNotations.
 Open Scope string_scope.
 
@@ -47,6 +47,24 @@ Theorem C11_json_decoded_values_reload : forall ft t nd, decode_doc ft t = OK nd
   forall c m, cft c = ft -> Builtins m -> value_ok c m v -> rt c m v.
 Proof. exact decoded_values_roundtrip. Qed.
 Print Assumptions C11_json_decoded_values_reload.
+
+(* the same for PROV-XML: XmlReadDoc.xml_read_document models the library's reader above record level (a fresh document;
+   prov:other skipped; a bundleContent child becomes document.bundle(identifier read in the element's scope) and its
+   children; record elements by XmlRead.xml_read_record) and is tied per run to ProvDocument.deserialize on whole foreign
+   and library-written texts (the document built, with every table of its managers).  Whatever tree it accepts: the
+   bundles sit under pairwise different URIs, and every record's dictionary has the set shape *)
+Theorem C11_xml_decoded_shape : forall ft prefix_of t nd, xml_read_document ft prefix_of t = OK nd ->
+  uniq (dbundles nd) /\
+  forall b r, In b (doc_containers nd) -> In r (brecs b) ->
+    NoDup (map key_uri (rattrs r)) /\ Forall (fun kv => set_distinct (snd kv)) (rattrs r).
+Proof. exact xml_read_document_ok. Qed.
+Print Assumptions C11_xml_decoded_shape.
+
+(* a container element holding record elements only is read by the record loop of C02_container_roundtrip *)
+Theorem C11_xml_container_is_record_loop : forall par ft prefix_of xs b,
+  Forall (fun x => elem_is "other" x = false /\ elem_is "bundleContent" x = false) xs ->
+  xml_read_elems par ft prefix_of b xs = xml_read_records par ft prefix_of b xs.
+Proof. exact read_elems_records. Qed.
 
 (* forms the library's writer never produces *)
 Definition obj := JObj.
